@@ -41,7 +41,7 @@ func init() {
 		Assumptions: []string{"fake stores answer instantly and ignore cancellation; when several shards return different special codes the order in which the proxy sees them is scheduler-dependent and either documented outcome is accepted"},
 		Batches:     tiered(320, 5760),
 		Run:         runC16,
-		Timeout:     timeoutFor(8*time.Minute, 40*time.Minute),
+		Timeout:     timeoutFor(3*time.Minute, 40*time.Minute),
 	})
 }
 
